@@ -44,8 +44,11 @@ type run struct {
 	mk     Factory
 	strict bool // out-of-range arguments must be answered with an error
 	ro     bool // only non-mutating calls
-	objs   []*obj
-	step   int
+	// truncDetaches: views taken before a Truncate of their original are left out of the byte comparison
+	// afterwards (set while the finding about the typed-array blob's copying Truncate is open)
+	truncDetaches bool
+	objs          []*obj
+	step          int
 }
 
 func (x *run) pickObj(pred func(*obj) bool) *obj {
@@ -120,7 +123,7 @@ func clip(b []byte) string {
 // invalidateViews stops comparing the bytes of views after their root was resized (whether they still
 // alias is implementation specific). What is not implementation specific: a view is its own header,
 // so resizing the root never changes the length a view was created with.
-func (x *run) invalidateViews(root *mroot, except *obj, sig, after string) {
+func (x *run) invalidateViews(root *mroot, except *obj, sig, after string, keep bool) {
 	for _, o := range x.objs {
 		if o.root == root && o != except && o.view && o.valid {
 			l := -1
@@ -128,7 +131,9 @@ func (x *run) invalidateViews(root *mroot, except *obj, sig, after string) {
 			if l != o.n {
 				x.r.Fail("length", sig+":view-length-follows-parent", fmt.Sprintf("after %s the view %s has length %d; it was created with length %d", after, o.name, l, o.n))
 			}
-			o.valid = false
+			if !keep {
+				o.valid = false
+			}
 		}
 	}
 }
@@ -184,7 +189,12 @@ func fill(n, tag int) []byte {
 
 // Run executes one trial.
 func Run(c Chooser, r Reporter, impl string, mk Factory, strict, readOnly bool) {
-	x := &run{c: c, r: r, impl: impl, mk: mk, strict: strict, ro: readOnly}
+	RunOpt(c, r, impl, mk, strict, readOnly, false)
+}
+
+// RunOpt is Run with the truncDetaches relaxation selectable.
+func RunOpt(c Chooser, r Reporter, impl string, mk Factory, strict, readOnly, truncDetaches bool) {
+	x := &run{c: c, r: r, impl: impl, mk: mk, strict: strict, ro: readOnly, truncDetaches: truncDetaches}
 	sizes := []int{8, 0, 1, 3, 16, 64}
 	nroots := 1 + c.Draw(2)
 	for i := 0; i < nroots; i++ {
@@ -323,14 +333,19 @@ func (x *run) op() {
 				r.Fail("in-range-refused", sigBase+":in-range:error", fmt.Sprintf("%s failed: %v", what, err))
 			}
 			if k == "Grow" {
-				o.root.data = append(append([]byte(nil), o.root.data...), make([]byte, arg)...)
-			} else if arg < o.n {
-				o.root.data = append([]byte(nil), o.root.data[:arg]...)
+				// like append: whether the grown blob still shares memory with views taken before depends on
+				// spare capacity, which is outside the model: those views are not compared any more
+				o.root.data = append(append([]byte(nil), o.root.data[:o.n]...), make([]byte, arg)...)
+				o.n = len(o.root.data)
+				x.invalidateViews(o.root, o, sigBase+rangeTag(inRange), what, false)
+			} else {
+				// like b = b[:size]: the original gets shorter, the memory stays where it is, and views taken
+				// before keep their own length and keep aliasing it
+				if arg < o.n {
+					o.n = arg
+				}
+				x.invalidateViews(o.root, o, sigBase+rangeTag(inRange), what, !x.truncDetaches)
 			}
-			o.n = len(o.root.data)
-			// views taken before a resize are not used any more: whether they still alias is
-			// implementation specific (reallocation) and outside the model
-			x.invalidateViews(o.root, o, sigBase+rangeTag(inRange), what)
 		} else if x.strict && err == nil {
 			r.Fail("out-of-range-accepted", sigBase+":out-of-range:no-error", fmt.Sprintf("%s with a negative argument returned no error", what))
 		}
